@@ -251,3 +251,37 @@ C08 = dict(
                  "fresh ids chosen by merge are unconstrained beyond freshness and injectivity"],
 )
 FAMILIES["C08"] = C08
+
+
+# ----------------------------------------------------------------- C11
+def _conform_case(world, c, i):
+    return dict(id=i, schema=world["schema"], kind=c["kind"], datum=c["datum"])
+
+
+def _mutate_conform(ev):
+    if ev.get("ev") != "Conform":
+        return None
+    ev = json.loads(json.dumps(ev))
+    k = sorted(ev["results"])[0]
+    ev["results"][k] = not ev["results"][k]
+    return ev
+
+
+C11 = dict(
+    family="conform", trace_module="Trace_Conform.tla",
+    models=[dict(name="mc_conform", module="MC_Conform.tla", cfg=dict(quick="MC_Conform.cfg", thorough="MC_Conform.cfg"),
+                 cases=_conform_case, limit=dict(quick=9000, thorough=None))],
+    nontrivial=lambda ev: ev.get("ev") == "Conform",
+    key=lambda ev: [ev.get("kind"), ev.get("datum")],
+    mutate=_mutate_conform, chunk=3000,
+    rule="G: all conformant entities of schema Sc1 over the optional-component product (users, docs, groups, folders, enum members, action entities) "
+         "and every single-fault mutant of each (wrong-typed value at top level / in a nested record / in a set, dropped attribute, undeclared "
+         "attribute, tag faults, ancestor of a non-permitted type, invalid enum id as uid / value / set element / ancestor, undeclared type, "
+         "altered or undeclared action), plus the full product of 6 principals x 6 actions x 5 resources x 11 contexts; each datum goes through "
+         "9 entity entry points or 4 request/context entry points and each verdict must equal Schema!Conforms*. distinct by (kind, datum).",
+    assumptions=["one schema family (Sc1); JSON entry points are fed the explicit __entity/__extn forms",
+                 "the harness's JSON-schema and entity-JSON renderers are faithful"],
+)
+FAMILIES["C11"] = C11
+
+import props_c07; FAMILIES["C07"] = props_c07.C07
